@@ -400,7 +400,7 @@ Section Exec.
     | IUnsubR s, XNone =>
       if shut st then ret st []
       else
-        let st0 := if mem s (allsubs st) then st_log st [GLeft s] else st in
+        let st0 := st_log st (if mem s (allsubs st) then [GLeft s] else []) in
         let (st1, r) := remove_locked st0 s in
         ret (emit st1 (dec_obs r)) (after_remove r)
 
